@@ -119,3 +119,46 @@ pub fn c18_stepenv_getters() {
     vcover!(code == 4, "cover.rejected_order");
     core::mem::forget(se);
 }
+
+/// C18: `StepEnv.step` drives the core environment with the object's OWN generator: after a step
+/// over three queued instructions the object's generator is where a generator with the same seed is
+/// after shuffling three items (the shuffle's word consumption does not depend on the items), and
+/// `place_order` / `cancel_order` / `modify_order` queue exactly the submitted instruction.
+#[kani::proof]
+#[kani::unwind(12)]
+#[kani::stub(pyo3::exceptions::PyValueError::new_err, crate::order_book::verif_proofs::stub_new_err)]
+#[kani::stub(bourse_book::OrderBook::process_event, bourse_book::OrderBook::verif_log_event)]
+pub fn c18_stepenv_step_uses_its_own_generator() {
+    // (the seed is concrete: with a symbolic Xoroshiro state the shuffle's rejection loop has no
+    // bound; what is decided is the wiring - whose generator is advanced - not the generator)
+    let seed: u64 = 0x9E37_79B9_7F4A_7C15;
+    let t = any_u64();
+    assume(t < (1u64 << 62));
+    let step = any_u64();
+    assume(step >= 4 && step < (1u64 << 62));
+    let mut se = StepEnv { env: BaseEnv::new(t, 1, step, any_bool()), rng: Xoroshiro128StarStar::seed_from_u64(seed) };
+    let vol = any_u32();
+    let trader = any_u32();
+    let id = any_usize();
+    let nv = any_u32();
+    let r = se.place_order(true, vol, trader, None);
+    let ok = matches!(&r, Ok(0));
+    core::mem::forget(r);
+    vcheck!(ok, "PY.place_order_returns_the_cores_id");
+    let r = se.cancel_order(id);
+    core::mem::forget(r);
+    let r = se.modify_order(id, None, Some(nv));
+    core::mem::forget(r);
+    vcheck!(se.env.verif_queue_len() == 3 && se.env.verif_queued(0) == (0, 0, None, None) && se.env.verif_queued(1) == (1, id, None, None) && se.env.verif_queued(2) == (2, id, None, Some(nv)),
+        "PY.submissions_queue_exactly_the_submitted_instructions");
+    let o = se.env.order(0);
+    vcheck!(matches!(o.side, bourse_book::types::Side::Bid) && o.vol == vol && o.trader_id == trader && o.price == Price::MAX, "PY.true_means_bid_and_arguments_are_forwarded_unchanged");
+    let r = se.step();
+    core::mem::forget(r);
+    let mut expect = Xoroshiro128StarStar::seed_from_u64(seed);
+    bourse_de::verif::shuffle_n(&mut expect, 3);
+    vcheck!(se.rng == expect, "PY.step_advances_the_objects_own_generator");
+    vcheck!(se.env.get_orderbook().get_trades().len() == 3 && se.env.verif_queue_len() == 0, "PY.step_processes_the_whole_batch");
+    vcheck!(se.time() == t + step, "PY.time_is_the_core_clock");
+    core::mem::forget(se);
+}
